@@ -1,8 +1,8 @@
 (** C20 — access logging and the fast formatters (logger/pattern.go, logger/logger.go,
     proxy/http_headers.go:150-181, uuid/format.go:36-62).
     This file contains only statements, [exact], and [Print Assumptions]. *)
-From Coq Require Import String List NArith ZArith.
-From Fabio Require Import Lib.Outcome Lib.Bytes Model.Logger Model.LoggerSpec Proofs.Logger Proofs.LoggerCal Proofs.LoggerFields Model.LoggerServe Proofs.LoggerServe.
+From Coq Require Import String List NArith ZArith Permutation.
+From Fabio Require Import Lib.Outcome Lib.Bytes Model.Logger Model.LoggerSpec Proofs.Logger Proofs.LoggerCal Proofs.LoggerFields Model.LoggerServe Proofs.LoggerServe Model.LoggerSink Proofs.LoggerSink.
 Import ListNotations.
 Local Open Scope N_scope.
 
@@ -442,3 +442,93 @@ Theorem C20_rendered_line_example :
   = Ok (bs "GET /foo HTTP/1.1||example.com|GET|https|/foo|https://example.com/foo|HTTP/1.1" ++ [10]).
 Proof. exact rendered_line_example. Qed.
 Print Assumptions C20_rendered_line_example.
+
+(* ---- several requests complete at the same time (Model/LoggerSink.v): one logger, one
+   mutex, a writer that takes a line in arbitrary pieces, every schedule ---- *)
+
+(* at most one Log call is inside w.Write *)
+Theorem C20_sink_one_writer : forall pieces sched i j tsi tsj,
+  let st := fst (sink_run Exclusive (sink_init pieces) sched) in
+  nth_error (sk_threads st) i = Some tsi -> is_writing tsi = true ->
+  nth_error (sk_threads st) j = Some tsj -> is_writing tsj = true -> i = j.
+Proof. exact sink_exclusive_one_writer. Qed.
+Print Assumptions C20_sink_one_writer.
+
+(* at every moment the log is whole lines of distinct requests, then the beginning of the
+   line of one further request or nothing *)
+Theorem C20_sink_any_moment : forall pieces sched,
+  let st := fst (sink_run Exclusive (sink_init pieces) sched) in
+  exists whole part others,
+    sk_sink st = concat whole ++ part /\
+    Permutation (whole ++ others) (map (@concat N) pieces) /\
+    (part = [] \/ exists l r, In l others /\ l = part ++ r).
+Proof. exact sink_exclusive_any_moment. Qed.
+Print Assumptions C20_sink_any_moment.
+
+(* when all calls have returned: every line is in the log, whole, exactly once *)
+Theorem C20_sink_whole_lines : forall pieces sched,
+  let st := fst (sink_run Exclusive (sink_init pieces) sched) in
+  all_done st = true ->
+  exists perm, Permutation perm (map (@concat N) pieces) /\ sk_sink st = concat perm.
+Proof. exact sink_exclusive_whole_lines. Qed.
+Print Assumptions C20_sink_whole_lines.
+
+(* ... and the lines are those Model/Logger.v renders for the events *)
+Theorem C20_sink_logs_each_event_once : forall format es pieces sched,
+  map (log_line format) es = map (fun ps => Ok (concat ps)) pieces ->
+  let st := fst (sink_run Exclusive (sink_init pieces) sched) in
+  all_done st = true ->
+  exists perm, Permutation (map (@Ok str) perm) (map (log_line format) es) /\ sk_sink st = concat perm.
+Proof. exact sink_exclusive_logs_each_event_once. Qed.
+Print Assumptions C20_sink_logs_each_event_once.
+
+(* no deadlock, and a call that waits waits for a call that is inside Write *)
+Theorem C20_sink_progress : forall pieces sched,
+  let st := fst (sink_run Exclusive (sink_init pieces) sched) in
+  all_done st = false -> exists t, snd (sink_step Exclusive st t) = true.
+Proof. exact sink_exclusive_progress. Qed.
+Print Assumptions C20_sink_progress.
+
+Theorem C20_sink_waits_only_for_a_writer : forall pieces sched t ps,
+  let st := fst (sink_run Exclusive (sink_init pieces) sched) in
+  nth_error (sk_threads st) t = Some (TReady ps) ->
+  snd (sink_step Exclusive st t) = false ->
+  exists j pre rest, j <> t /\ nth_error (sk_threads st) j = Some (TWriting pre rest).
+Proof. exact sink_exclusive_waits_only_for_a_writer. Qed.
+Print Assumptions C20_sink_waits_only_for_a_writer.
+
+(* non-vacuity for every list of calls: the sequential schedule ends with all calls returned *)
+Theorem C20_sink_sequential : forall pieces,
+  let st := fst (sink_run Exclusive (sink_init pieces) (seq_sched 0 pieces)) in
+  all_done st = true /\ sk_sink st = concat (map (@concat N) pieces).
+Proof. exact sink_exclusive_sequential. Qed.
+Print Assumptions C20_sink_sequential.
+
+(* the test the correspondence check applies to the bytes the real writer received is
+   exactly that specification; however the writer cuts the lines, nothing is lost *)
+Theorem C20_whole_lines_iff : forall sink lines,
+  whole_lines sink lines = true <-> exists perm, Permutation perm lines /\ sink = concat perm.
+Proof. exact whole_lines_iff. Qed.
+Print Assumptions C20_whole_lines_iff.
+
+Theorem C20_carve_all_lines : forall lines cuts, map (@concat N) (carve_all cuts lines) = lines.
+Proof. exact carve_all_lines. Qed.
+Print Assumptions C20_carve_all_lines.
+
+(* Log under a read lock (seeded change C20-N): two calls, each line taken in two halves *)
+Theorem C20_sink_shared_lock_refuted :
+  exists pieces sched,
+    let st := fst (sink_run Shared (sink_init pieces) sched) in
+    all_done st = true /\
+    ~ exists perm, Permutation perm (map (@concat N) pieces) /\ sk_sink st = concat perm.
+Proof. exact sink_shared_refuted. Qed.
+Print Assumptions C20_sink_shared_lock_refuted.
+
+(* the same calls and schedule with the mutex: the second call is parked three times *)
+Theorem C20_sink_example :
+  let '(st, flags) := sink_run Exclusive (sink_init ex_pieces) ex_sched in
+  all_done st = true /\
+  flags = [true; false; true; false; true; false; true; true; true; true; true] /\
+  sk_sink st = bs "GET /alpha 200" ++ [10] ++ bs "GET /beta 404" ++ [10].
+Proof. exact sink_exclusive_example. Qed.
+Print Assumptions C20_sink_example.
